@@ -3,3 +3,5 @@ open PgmVerif
 #print axioms PgmVerif.C02_update_preserves_measure
 #print axioms PgmVerif.C02_two_clique_exact
 #print axioms PgmVerif.C02_sepset_agreement_after_update
+#print axioms PgmVerif.C02_calibrated_tree_exact
+#print axioms PgmVerif.C02_calibrated_tree_marginal
